@@ -1,6 +1,6 @@
 (* Props_C15.v — C15: dissemination accounting for cluster updates. *)
 From Foca Require Import Laws BcastM FocaM L_Bcast L_Fill L_Members L_MembersInv Inv Reach L_Wire L_Dissem L_BacklogOps.
-From Foca Require Import L_TxExact L_TxAccount L_FanOut L_SendTx L_Evidence L_TxPass Concrete ConcreteLaws.
+From Foca Require Import L_TxExact L_TxHist L_TxAccount L_FanOut L_SendTx L_Evidence L_TxPass Concrete ConcreteLaws.
 From Coq Require Import Relations.
 From Coq Require Import Sorted.
 
@@ -93,6 +93,38 @@ Theorem C15_fills_end_meaning (l : backlog Addr) (extra : N) (hint : list N) (ro
   /\ fills_end Addr l ((extra, hint, room, rem) :: t)
      = fills_end Addr (flat_map (kp Addr) (fill_dec Addr extra (pop_order Addr hint l) room rem)) t.
 Proof. split; reflexivity. Qed.
+
+(* THE SAME OVER HISTORIES OF BOTH OPERATIONS.  Every operation a call performs on the backlog is an
+   acceptance or a fill (C15_backlog_changes_only_so), i.e. a bop; over ANY sequence of bops in which
+   nothing is accepted for the entry's own address, either the address is no longer pending and the
+   entry was written exactly e_tx times, or the same bytes are still pending and transmissions left +
+   times written = e_tx.  An acceptance for the address itself supersedes: afterwards exactly the new
+   entry is pending under it. *)
+Theorem C15_calls_are_made_of_these_operations (l l' : backlog Addr) :
+  clos_refl_trans _ ustep l l' -> exists ops, l' = bops_end Addr addr_eqb l ops.
+Proof. exact (usteps_are_bops l l'). Qed.
+
+Theorem C15_exactly_max_transmissions_unless_superseded (ops : list (bop Addr)) (l : backlog Addr) (e : @entry Addr) :
+  NoDup (map e_key l) -> In e l -> 1 <= e_tx e ->
+  (forall o, In o ops -> ~ accepts_key Addr (e_key e) o) ->
+  ((forall x, In x (bops_end Addr addr_eqb l ops) -> e_key x <> e_key e)
+   /\ times_written Addr addr_eqb (e_key e) (bops_hist Addr addr_eqb l ops) = N.to_nat (e_tx e))
+  \/ (exists x, In x (bops_end Addr addr_eqb l ops) /\ e_key x = e_key e /\ e_data x = e_data e /\ 1 <= e_tx x
+        /\ (N.to_nat (e_tx x) + times_written Addr addr_eqb (e_key e) (bops_hist Addr addr_eqb l ops) = N.to_nat (e_tx e))%nat).
+Proof. exact (tx_conserved_hist Addr addr_eqb addr_eqb_eq ops l e). Qed.
+
+Theorem C15_superseded_by_the_fresher_update (l : backlog Addr) (k : Addr) (d : bytes) (tx : N) (x : @entry Addr) :
+  In x (add_or_replace Addr addr_eqb l k d tx) -> e_key x = k -> x = mkEntry tx d k.
+Proof. exact (aor_supersedes Addr addr_eqb addr_eqb_eq l k d tx x). Qed.
+
+Theorem C15_bops_meaning (l : backlog Addr) (k : Addr) (d : bytes) (tx : N) (s : fill_step) (t : list (bop Addr)) :
+  bops_end Addr addr_eqb l [] = l /\ bops_hist Addr addr_eqb l [] = []
+  /\ bops_end Addr addr_eqb l (BAcc Addr k d tx :: t) = bops_end Addr addr_eqb (add_or_replace Addr addr_eqb l k d tx) t
+  /\ bops_hist Addr addr_eqb l (BAcc Addr k d tx :: t) = bops_hist Addr addr_eqb (add_or_replace Addr addr_eqb l k d tx) t
+  /\ bops_end Addr addr_eqb l (BFill Addr s :: t) = bops_end Addr addr_eqb (flat_map (kp Addr) (fill_decs Addr l s)) t
+  /\ bops_hist Addr addr_eqb l (BFill Addr s :: t) = fill_decs Addr l s :: bops_hist Addr addr_eqb (flat_map (kp Addr) (fill_decs Addr l s)) t
+  /\ (accepts_key Addr k (BAcc Addr k d tx) <-> True) /\ (accepts_key Addr k (BFill Addr s) <-> False).
+Proof. repeat split; auto. Qed.
 
 (* Feed, Announce, TurnUndead and Broadcast datagrams consume nothing *)
 Theorem C15_non_piggyback_consume_nothing (rnd : oracle) (dst : Id) (msg : message Id) (s : @rs Id Addr HO) :
@@ -226,6 +258,19 @@ Example C15_exactness_example :
   /\ fills_end N ex15_l0 (firstn 3 ex15_steps) = [mkEntry 1 [1;2] 7].
 Proof. vm_compute. auto. Qed.
 
+(* non-vacuity over both operations: an acceptance for ANOTHER address between the fills changes nothing
+   for address 7 (3 writes, then gone); an acceptance for address 7 itself after two writes supersedes *)
+Definition ex15_ops : list (bop N) :=
+  [BFill N (0,[],100,10); BAcc N 9 [5] 2; BFill N (0,[],100,10); BFill N (0,[],100,10); BFill N (0,[],100,10)].
+Definition ex15_ops_sup : list (bop N) :=
+  [BFill N (0,[],100,10); BFill N (0,[],100,10); BAcc N 7 [6;6] 3].
+Example C15_history_exactness_example :
+  times_written N N.eqb 7 (bops_hist N N.eqb ex15_l0 ex15_ops) = 3%nat
+  /\ bops_end N N.eqb ex15_l0 ex15_ops = []
+  /\ times_written N N.eqb 7 (bops_hist N N.eqb ex15_l0 ex15_ops_sup) = 2%nat
+  /\ bops_end N N.eqb ex15_l0 ex15_ops_sup = [mkEntry 3 [6;6] 7].
+Proof. vm_compute. auto. Qed.
+
 Print Assumptions C15_backlog_operations.
 Print Assumptions C15_backlog_changes_only_so.
 Print Assumptions C15_backlog_invariant.
@@ -250,3 +295,8 @@ Print Assumptions C15_transmissions_conserved.
 Print Assumptions C15_pending_until_then.
 Print Assumptions C15_fills_end_meaning.
 Print Assumptions C15_exactness_example.
+Print Assumptions C15_calls_are_made_of_these_operations.
+Print Assumptions C15_exactly_max_transmissions_unless_superseded.
+Print Assumptions C15_superseded_by_the_fresher_update.
+Print Assumptions C15_bops_meaning.
+Print Assumptions C15_history_exactness_example.
